@@ -56,6 +56,39 @@ impl AtomicBool {
 impl UnwindSafe for AtomicBool {}
 impl RefUnwindSafe for AtomicBool {}
 
+/// Integer atomics (a plausible addition to the debugger: counters, generations), same wrapping as AtomicBool.
+macro_rules! shim_atomic_int {
+    ($($name:ident: $t:ty),*) => { $(
+        pub struct $name(shuttle::sync::atomic::$name);
+        impl $name {
+            pub fn new(v: $t) -> Self {
+                $name(shuttle::sync::atomic::$name::new(v))
+            }
+            pub fn load(&self, o: Ordering) -> $t {
+                self.0.load(o)
+            }
+            pub fn store(&self, v: $t, o: Ordering) {
+                self.0.store(v, o)
+            }
+            pub fn swap(&self, v: $t, o: Ordering) -> $t {
+                self.0.swap(v, o)
+            }
+            pub fn fetch_add(&self, v: $t, o: Ordering) -> $t {
+                self.0.fetch_add(v, o)
+            }
+            pub fn fetch_sub(&self, v: $t, o: Ordering) -> $t {
+                self.0.fetch_sub(v, o)
+            }
+            pub fn compare_exchange(&self, a: $t, b: $t, s: Ordering, f: Ordering) -> Result<$t, $t> {
+                self.0.compare_exchange(a, b, s, f)
+            }
+        }
+        impl UnwindSafe for $name {}
+        impl RefUnwindSafe for $name {}
+    )* };
+}
+shim_atomic_int!(AtomicUsize: usize, AtomicIsize: isize, AtomicU64: u64, AtomicI64: i64, AtomicU32: u32, AtomicI32: i32);
+
 pub struct Sender<T>(shuttle::sync::mpsc::SyncSender<T>);
 impl<T> Clone for Sender<T> {
     fn clone(&self) -> Self {
